@@ -141,3 +141,106 @@ theorem levenshteinAlg_eq (eq : UInt8 → UInt8 → Bool) (hsym : ∀ x y, eq x 
         rw [hrow0 a, hrow0' a b, levRows_eq eq a b b 0 (by omega) (by simp), hlast]
 
 end TlxVerif.C19
+
+namespace TlxVerif.C19
+open TlxVerif.C18 (Bytes npos)
+
+/-! ### the prefix recurrence and the head recursion agree -/
+
+section
+variable (eq : UInt8 → UInt8 → Bool)
+
+theorem levFront_nil_left (b : Bytes) : Spec.levFront eq [] b = b.length := by
+  rw [Spec.levFront]
+
+theorem levFront_nil_right (a : Bytes) : Spec.levFront eq a [] = a.length := by
+  cases a with
+  | nil => rw [Spec.levFront]
+  | cons x a => rw [Spec.levFront]; simp
+
+theorem levFront_cons_cons (x y : UInt8) (a b : Bytes) :
+    Spec.levFront eq (x :: a) (y :: b) =
+      min (min (Spec.levFront eq a (y :: b) + 1) (Spec.levFront eq (x :: a) b + 1))
+        (Spec.levFront eq a b + (if eq x y then 0 else 1)) := by
+  rw [Spec.levFront]
+
+/-- the head recursion also satisfies the recurrence at the *ends* of the strings -/
+theorem levFront_snoc (n : Nat) : ∀ (a b : Bytes) (x y : UInt8), a.length + b.length ≤ n →
+    Spec.levFront eq (a ++ [x]) (b ++ [y]) =
+      min (min (Spec.levFront eq a (b ++ [y]) + 1) (Spec.levFront eq (a ++ [x]) b + 1))
+        (Spec.levFront eq a b + (if eq x y then 0 else 1)) := by
+  induction n with
+  | zero =>
+    intro a b x y h
+    have ha : a = [] := List.length_eq_zero_iff.mp (by omega)
+    have hb : b = [] := List.length_eq_zero_iff.mp (by omega)
+    subst ha; subst hb
+    simp only [List.nil_append, levFront_cons_cons, levFront_nil_left, levFront_nil_right]
+  | succ n ih =>
+    intro a b x y h
+    cases a with
+    | nil =>
+      cases b with
+      | nil => simp only [List.nil_append, levFront_cons_cons, levFront_nil_left, levFront_nil_right]
+      | cons y0 b' =>
+        have ih1 := ih [] b' x y (by simp only [List.length_cons, List.length_nil] at h ⊢; omega)
+        simp only [List.nil_append] at ih1 ⊢
+        rw [List.cons_append, levFront_cons_cons, levFront_cons_cons, ih1]
+        simp only [levFront_nil_left, List.length_cons, List.length_append, List.length_nil]
+        omega
+    | cons x0 a' =>
+      cases b with
+      | nil =>
+        have ih1 := ih a' [] x y (by simp only [List.length_cons, List.length_nil] at h ⊢; omega)
+        simp only [List.nil_append] at ih1 ⊢
+        rw [List.cons_append, levFront_cons_cons, levFront_cons_cons, ih1]
+        simp only [levFront_nil_right, List.length_cons, List.length_append, List.length_nil]
+        omega
+      | cons y0 b' =>
+        have hl : a'.length + b'.length + 1 ≤ n := by simp only [List.length_cons] at h; omega
+        have ih1 := ih a' (y0 :: b') x y (by simp only [List.length_cons]; omega)
+        have ih2 := ih (x0 :: a') b' x y (by simp only [List.length_cons]; omega)
+        have ih3 := ih a' b' x y (by omega)
+        simp only [List.cons_append] at ih1 ih2 ⊢
+        rw [levFront_cons_cons eq x0 y0 (a' ++ [x]) (b' ++ [y]), ih1, ih2, ih3]
+        rw [levFront_cons_cons eq x0 y0 a' (b' ++ [y]), levFront_cons_cons eq x0 y0 (a' ++ [x]) b',
+          levFront_cons_cons eq x0 y0 a' b']
+        generalize Spec.levFront eq a' (y0 :: (b' ++ [y])) = t1
+        generalize Spec.levFront eq (a' ++ [x]) (y0 :: b') = t2
+        generalize Spec.levFront eq a' (y0 :: b') = t3
+        generalize Spec.levFront eq (x0 :: a') (b' ++ [y]) = t4
+        generalize Spec.levFront eq (x0 :: (a' ++ [x])) b' = t5
+        generalize Spec.levFront eq (x0 :: a') b' = t6
+        generalize Spec.levFront eq a' (b' ++ [y]) = t7
+        generalize Spec.levFront eq (a' ++ [x]) b' = t8
+        generalize Spec.levFront eq a' b' = t9
+        generalize (if eq x y = true then 0 else 1) = c
+        generalize (if eq x0 y0 = true then 0 else 1) = c0
+        simp only [← Nat.add_min_add_right]
+        ac_rfl
+
+/-- the matrix of the prefix recurrence holds the head-recursive distances of the prefixes -/
+theorem levD_eq_levFront_take (a b : Bytes) : ∀ i j, i ≤ a.length → j ≤ b.length →
+    Spec.levD eq a b i j = Spec.levFront eq (a.take i) (b.take j)
+  | 0, j, _, hj => by
+    rw [Spec.levD]; simp [levFront_nil_left, List.length_take, Nat.min_eq_left hj]
+  | i + 1, 0, hi, _ => by
+    rw [Spec.levD]; simp [levFront_nil_right, List.length_take, Nat.min_eq_left hi]
+  | i + 1, j + 1, hi, hj => by
+    have hia : i < a.length := by omega
+    have hjb : j < b.length := by omega
+    rw [Spec.levD, levD_eq_levFront_take a b i (j + 1) (by omega) hj,
+      levD_eq_levFront_take a b (i + 1) j hi (by omega), levD_eq_levFront_take a b i j (by omega) (by omega)]
+    have ha : a.take (i + 1) = a.take i ++ [a.getD i 0] := by
+      rw [List.take_add_one, List.getD_eq_getElem?_getD, List.getElem?_eq_getElem hia]; rfl
+    have hb : b.take (j + 1) = b.take j ++ [b.getD j 0] := by
+      rw [List.take_add_one, List.getD_eq_getElem?_getD, List.getElem?_eq_getElem hjb]; rfl
+    rw [ha, hb, levFront_snoc eq _ (a.take i) (b.take j) _ _ (Nat.le_refl _)]
+
+theorem lev_eq_levFront (a b : Bytes) : Spec.lev eq a b = Spec.levFront eq a b := by
+  unfold Spec.lev
+  rw [levD_eq_levFront_take eq a b a.length b.length (Nat.le_refl _) (Nat.le_refl _)]
+  simp
+
+end
+end TlxVerif.C19
